@@ -20,7 +20,7 @@ BOUNDS = {
 }
 PAIR_BOUNDS = {
     "quick": {"L": (2, 3), "C": (3, 3), "F": (3, 3), "K": (4, 3), "T": (3, 3), "M": (4, 3)},
-    "thorough": {"L": (2, 4), "C": (3, 4), "F": (3, 4), "K": (4, 5), "T": (4, 5), "M": (4, 4)},
+    "thorough": {"L": (2, 4), "C": (3, 4), "F": (3, 4), "K": (4, 5), "T": (4, 4), "M": (4, 4)},
 }
 FAMILY_NAMES = {"L": "listeners", "C": "clusters+backends", "F": "http/https frontends", "K": "certificates",
                 "T": "tcp/udp frontends", "M": "mixed"}
@@ -172,7 +172,8 @@ def run_pairs(pid, tier, wd):
 
     def one(fam):
         maxobj, depth = PAIR_BOUNDS[tier][fam]
-        cfg = write_cfg(wd, "pairs_%s.cfg" % fam, fam, maxobj, depth, thorough, "none", ["P_C06"], spec="PairSpec")
+        # the product of two configurations grows fast: the pair runs keep the narrow universe in both tiers
+        cfg = write_cfg(wd, "pairs_%s.cfg" % fam, fam, maxobj, depth, False, "none", ["P_C06"], spec="PairSpec")
         return fam, vlib.tlc(MODULE, cfg, pid, workers=2 if not thorough else 5, timeout=3000 if thorough else 900)
 
     with concurrent.futures.ThreadPoolExecutor(max_workers=6 if not thorough else 3) as ex:
